@@ -589,6 +589,27 @@ func (c *fnCtx) condAlts(x ast.Expr, want bool, base Event) alts {
 		if v.Op == token.NOT {
 			return c.condAlts(v.X, !want, base)
 		}
+	case *ast.Ident:
+		// a boolean local that names a compound condition (inBounds := n >= lo && n <= hi; if !inBounds):
+		// the condition itself, when it is free of calls
+		if lv, ok := c.info.Uses[v].(*types.Var); ok && !lv.IsField() && !isParamOf(c.fn, lv) {
+			if ds, ok := c.fn.Defs().singleDef(lv); ok && ds.kind == "assign" && !ds.multi && ds.rhs != nil && c.isCompoundBool(ds.rhs) {
+				pure := true
+				ast.Inspect(ds.rhs, func(n ast.Node) bool {
+					if call, isCall := n.(*ast.CallExpr); isCall {
+						if tv, ok := c.info.Types[call.Fun]; !ok || !tv.IsType() {
+							if b, isB := calleeObj(c.info, call).(*types.Builtin); !isB || b.Name() != "len" {
+								pure = false
+							}
+						}
+					}
+					return pure
+				})
+				if pure {
+					return c.condAlts(ds.rhs, want, base)
+				}
+			}
+		}
 	case *ast.BinaryExpr:
 		switch v.Op {
 		case token.LOR:
@@ -986,6 +1007,15 @@ func (c *fnCtx) callEvents(call *ast.CallExpr) alts {
 		// helper's caller bound to it
 		if id, ok := ua.(*ast.Ident); ok {
 			if pv, isVar := info.Uses[id].(*types.Var); isVar {
+				// a local closure handed over by name (post := func() error {…}; instrument(post))
+				if !pv.IsField() && !isParamOf(c.fn, pv) {
+					if ds, ok := c.fn.Defs().singleDef(pv); ok && ds.kind == "assign" && !ds.multi && ds.rhs != nil {
+						if lit, isLit := ast.Unparen(ds.rhs).(*ast.FuncLit); isLit {
+							fargs = append(fargs, fnArg{idx: i, lit: lit})
+							continue
+						}
+					}
+				}
 				if lit, tgt, owner := c.boundFuncArg(pv); owner != nil {
 					if lit != nil {
 						fargs = append(fargs, fnArg{idx: i, lit: lit, own: owner})
@@ -1151,6 +1181,16 @@ func (c *fnCtx) boundFuncArg(v *types.Var) (*ast.FuncLit, *types.Func, *Func) {
 		}
 		if tgt := funcValueTarget(caller.Info(), arg); tgt != nil {
 			return nil, tgt, caller
+		}
+		// a local closure of the caller handed over by name (post := func() error {…}; instrument(post))
+		if id, ok := arg.(*ast.Ident); ok {
+			if lv, ok := caller.Info().Uses[id].(*types.Var); ok && !lv.IsField() && !isParamOf(caller, lv) {
+				if ds, ok := caller.Defs().singleDef(lv); ok && ds.kind == "assign" && !ds.multi && ds.rhs != nil {
+					if lit, isLit := ast.Unparen(ds.rhs).(*ast.FuncLit); isLit {
+						return lit, nil, caller
+					}
+				}
+			}
 		}
 		// handed through from the caller's own bound parameter
 		if id, ok := arg.(*ast.Ident); ok {
